@@ -5,7 +5,8 @@
 // The `this` object is NOT a libstdc++ stream but the harness-owned VStream / VOStream of harness/vstream.h
 // (symbolic build only; the native replay build uses real streams over a streambuf with the same behaviour).
 // Behaviour modelled (as observable through these members, C++17 [istream.unformatted]/[ostream.unformatted]):
-//   read: if the stream has failed nothing is stored; otherwise min(n, available) bytes are stored, and when that is
+//   read: gcount() reports the number of bytes stored (the inline gcount() reads the 8 bytes after the vptr);
+//         if the stream has failed nothing is stored; otherwise min(n, available) bytes are stored, and when that is
 //         fewer than n the stream enters the failed state (eofbit|failbit) -- the rest of the destination is untouched;
 //   tellg: current offset, or -1 once failed; seekg: no effect once failed, fails for targets outside [0,size];
 //   write: appends; from offset fail_at (or the capacity) on nothing is stored and badbit is set; once bad, no effect.
@@ -26,6 +27,7 @@ std::ostream &v_model_ostream_flush(std::ostream *self) __asm__("_ZNSo5flushEv")
 
 std::istream &v_model_istream_read(std::istream *self, char *s, std::streamsize n) {
   VStream *vs = reinterpret_cast<VStream *>(self);
+  vs->gcount = 0;
   if (vs->failed || n <= 0) return *self;
   uint64_t lim = vs->size < vs->fail_at ? vs->size : vs->fail_at;
   uint64_t avail = vs->pos < lim ? lim - vs->pos : 0;
@@ -34,6 +36,7 @@ std::istream &v_model_istream_read(std::istream *self, char *s, std::streamsize 
   const uint8_t *src = vs->data + vs->pos;
   for (uint64_t i = 0; i < k; ++i) s[i] = (char)src[i];
   vs->pos += k;
+  vs->gcount = (int64_t)k;
   if (k < want) vs->failed = true;
   return *self;
 }
